@@ -110,11 +110,15 @@ def run(ctx):
             if not step("go build fc (generation %d compiler)" % (g - 1), ["go", "build", "-o", fcbin, "."], fcdir):
                 allok = False
                 break
-            # delete the outputs first: a recipe step that silently writes nothing must not pass
+            # spoil the outputs first: a recipe step that silently writes nothing must not pass
+            # (nor one that writes over an older, longer file without truncating it): every output is
+            # first replaced by junk that is longer than anything the recipe writes
             for rel in fc_gen + s_gen + t_gen + ["samples/README.md"]:
                 p = os.path.join(cp, rel)
                 if os.path.exists(p):
-                    os.remove(p)
+                    n = os.path.getsize(p)
+                    with open(p, "wb") as fh:
+                        fh.write(b"// stale junk that a complete regeneration replaces\n" * (n // 40 + 50))
             ok = step("fc_all.sh: fc on its own sources", [fcbin] + fc_args, fcdir)
             for s in samples:
                 ok = step("myfc.sh " + s, [fcbin] + [a if a != "$1" else s for a in s_args], sdir) and ok
